@@ -119,6 +119,12 @@ Fixpoint grow (segs : list seg) (cur : node) (pc : pcoord) (next vo : N) (value 
       end
   end.
 
+(* Nodes.require_buildable_path (nodes.py; fix 45f1b07) on a straight path: beneath
+   an element that does not exist only Hash keys and NON-NEGATIVE Array indexes
+   can be built; the walk asks before it builds anything *)
+Definition straight_buildable (s : seg) : bool :=
+  match s with SKey _ _ => true | SIdx z => (0 <=? z)%Z end.
+
 (* could the Array-of-Hashes pass-through find key k below this node? *)
 Fixpoint aoh_has (k : string) (n : node) : bool :=
   match n with
@@ -212,7 +218,9 @@ Fixpoint walk (segs : list seg) (cur : node) (pc : pcoord) (d : node) (next vo :
                  no key / index segment finds anything in None; the missing-element block replaces a null that is
                  the child of a dict / list by the container the segment needs - data =
                  Nodes.build_next_node(yaml_path, depth, value); parent[parentref] = data - and builds the tail
-                 in it *)
+                 in it; (fix 45f1b07) first of all Nodes.require_buildable_path(yaml_path, depth): the null is
+                 left alone when the tail cannot be built *)
+              if negb (forallb straight_buildable rest) then RErr (YPE Generic) else
               match cur with
               | NMap _ _ | NSeq _ _ =>
                   rbind (build_next rest value next vo) (fun cont =>
@@ -226,6 +234,8 @@ Fixpoint walk (segs : list seg) (cur : node) (pc : pcoord) (d : node) (next vo :
           | _, _ => walk rest child cpc d next vo value
           end
       | None =>
+          (* (fix 45f1b07) Nodes.require_buildable_path(yaml_path, depth + 1), before anything is built *)
+          if negb (forallb straight_buildable rest) then RErr (YPE Generic) else
           rbind (grow segs cur pc next vo value) (fun g =>
           match coid cur with
           | Some o => ROk (put_obj o (fst (fst g)) d, snd (fst g), snd g)
